@@ -43,9 +43,116 @@ def observe_data(r):
     return dict(base, ok=True, bits=[1 if c == "1" else 0 for c in r.get("bits", "")])
 
 
+# --------------------------------------------------------------------------
+# wide operands: BigArith.tla / TraceBig.tla
+
+WIDTHS = [31, 32, 33, 47, 63, 64, 65, 100, 127, 128, 129, 200, 256]
+BIGOPS = ["add", "sub", "mul", "div", "mod", "shl", "shr", "and", "or", "xor", "eq", "ne", "lt", "le", "gt", "ge"]
+OPTEXT = {"add": "+", "sub": "-", "mul": "*", "div": "/", "mod": "%", "shl": "<<", "shr": ">>", "and": "&", "or": "|", "xor": "^",
+          "eq": "==", "ne": "!=", "lt": "<", "le": "<=", "gt": ">", "ge": ">="}
+
+
+def to_tc(v):
+    """an integer as the two's-complement record of BigArith.tla (glue: a change of representation)"""
+    if v >= 0:
+        return {"s": 0, "b": [(v >> i) & 1 for i in range(v.bit_length())]}
+    n = (-v - 1).bit_length()
+    w = v + (1 << n)
+    return {"s": 1, "b": [(w >> i) & 1 for i in range(n)]}
+
+
+def gen_big(rng, depth, small=False):
+    """-> (tree for TraceBig, text).  Leaves are non-negative literals of chosen bit lengths;
+    negative numbers come from the operators."""
+    if depth == 0 or (depth < 3 and rng.random() < 0.3):
+        if small:
+            v = rng.choice([0, 1, 2, 7, 31, 32, 33, 63, 64, 65, 100, 255, rng.randrange(0, 300)])
+        else:
+            w = rng.choice(WIDTHS)
+            c = rng.random()
+            v = (1 << w) - 1 if c < 0.12 else 1 << (w - 1) if c < 0.24 else (1 << w) if c < 0.3 else rng.getrandbits(w)
+        text = rng.choice(["%d", "0x%x", "0x%X"]) % v if v > 9 or rng.random() < 0.5 else str(v)
+        t = dict(to_tc(v), k="lit")
+        return t, text
+    c = rng.random()
+    if c < 0.18:
+        op = rng.choice(["neg", "not"])
+        e, te = gen_big(rng, depth - 1, small)
+        return {"k": "un", "op": op, "e": e}, "(%s(%s))" % ("-" if op == "neg" else "!", te)
+    op = rng.choice(BIGOPS)
+    if op in ("eq", "ne", "lt", "le", "gt", "ge") and depth < 3 and rng.random() < 0.5:
+        op = rng.choice(["add", "sub", "mul", "div", "mod", "and", "or", "xor"])     # comparisons mostly at the top
+    l, tl = gen_big(rng, depth - 1, small)
+    if op in ("shl", "shr"):
+        r, tr = gen_big(rng, 0, True) if rng.random() < 0.85 else gen_big(rng, min(depth - 1, 1), True)
+    elif op in ("div", "mod") and rng.random() < 0.5:
+        r, tr = gen_big(rng, 0, rng.random() < 0.5)                                   # divisors of every size
+    else:
+        r, tr = gen_big(rng, depth - 1, small)
+    return {"k": "bin", "op": op, "l": l, "r": r}, "((%s) %s (%s))" % (tl, OPTEXT[op], tr)
+
+
+def has_bool_operand(t):
+    """a comparison below another operator: ill-typed (`(a < b) + 1`), not generated on purpose"""
+    def is_bool(x):
+        return (x["k"] == "bin" and x["op"] in ("eq", "ne", "lt", "le", "gt", "ge")) or (x["k"] == "un" and x["op"] == "not" and is_bool(x["e"]))
+    if t["k"] == "lit":
+        return False
+    if t["k"] == "un":
+        return (t["op"] == "neg" and is_bool(t["e"])) or has_bool_operand(t["e"])
+    return is_bool(t["l"]) or is_bool(t["r"]) or has_bool_operand(t["l"]) or has_bool_operand(t["r"])
+
+
+def wide_family(ck, quick, rng):
+    r = common.tlc("MC_BigArith", "MC_BigArith.cfg" if quick else "MC_BigArith_thorough.cfg", ck.wd, workers=4, timeout=3000)
+    ck.add_tlc(r)
+    ck.extra.setdefault("mc", []).append({"module": "MC_BigArith", "states": r.distinct, "ok": r.ok})
+    if not r.ok:
+        ck.violation("MC:MC_BigArith:" + str(r.violated), r.out[-2500:], {"tlc": r.out[-6000:]})
+    n = 1200 if quick else 40000
+    cases = []
+    while len(cases) < n:
+        t, text = gen_big(rng, rng.choice([1, 1, 2, 2, 3]))
+        if t["k"] == "lit" or has_bool_operand(t):
+            continue
+        cases.append((t, text))
+    jobs = [{"mode": "asm", "files": {"main.asm": "x = %s\n" % text}, "roots": ["main.asm"],
+             "want": {"messages": False, "spans": False, "events": False}} for _, text in cases]
+    results = common.run_jobs(jobs, ck.wd + "/bigjobs")
+    ck.evaluations += len(jobs)
+    events = []
+    for i, ((t, text), r) in enumerate(zip(cases, results)):
+        if r.get("crash") or r.get("panic"):
+            ck.violation("panic:%s@%s" % (str(r.get("panic") or r.get("crash"))[:60], r.get("panic_at", "")),
+                         {"text": text, "panic": r.get("panic")}, {"job": jobs[i]})
+            continue
+        o = {"ok": False, "t": "other", "s": 0, "b": [], "v": 0, "size": -1}
+        sym = None if r.get("error") else next((s for s in r.get("symbols", []) if s["name"] == "x"), None)
+        if sym is not None:
+            v = sym["value"]
+            o["ok"] = True
+            if v.get("t") == "int" and not str(v["v"]).startswith("huge:"):
+                o.update(to_tc(int(v["v"])), t="int", size=-1 if v.get("size") is None else v["size"])
+            elif v.get("t") == "bool":
+                o.update(t="bool", v=1 if v.get("b") else 0)
+        events.append({"ev": "big", "case": i, "tree": t, "obs": o})
+        if i % 300 == 0:
+            ck.sample({"text": text, "observed": (sym or {}).get("value")}, limit=10)
+    failed = tv.judge(ck, "TraceBig", "TraceBig.cfg", events, ck.wd, tag="big", shard=150, timeout=3000, jobs=6)
+    ck.traces += len(events)
+    for case in sorted(failed):
+        t, text = cases[case]
+        ck.violation("TraceBig:" + "+".join(sorted(set(failed[case]))),
+                     {"text": text, "verdict": failed[case], "observed": next(e["obs"] for e in events if e["case"] == case)},
+                     {"job": jobs[case], "tree": t, "spec": "TraceBig"})
+    ck.extra["wide_operand_trees"] = len(events)
+    return len(events)
+
+
 def run_c05(ck):
     quick = ck.tier == "quick"
     rng = random.Random(ck.seed)
+    nwide = wide_family(ck, quick, random.Random(ck.seed + 505))
     ntree = 6000 if quick else 150000
     nsoup = 3000 if quick else 60000
     cases = []   # (kind, payload, mode, text)
@@ -115,11 +222,13 @@ def run_c05(ck):
                       "observed": next(e["obs"] for e in events if e["case"] == case)},
                      {"job": jobs[case], kind: payload, "spec": "TraceExpr"})
     ck.extra["families"] = {"trees": ntree, "token_soups": nsoup}
-    ck.assumptions += ["native-integer path: expressions whose values or sizes leave |v| < 2^30 / 30 bits are skipped (counted in the log as VP|skip)",
+    ck.assumptions += ["expression trees of the full language: native-integer path, values or sizes beyond |v| < 2^30 / 30 bits are skipped there (VP|skip); "
+                       "arithmetic, shifts, bitwise operators and comparisons on operands of 31..256 bits (and their products) are judged by the "
+                       "bit-level arithmetic of BigArith.tla (TraceBig), which MC_BigArith ties to the native operators on an exhaustive small range",
                        "trees are rendered fully parenthesised; precedence and associativity are judged on token soups parsed by ExprSyntax.tla"]
     for e in events[:0]:
         pass
-    ck.nontrivial = set(range(len(events) - len(failed)))  # every judged case is a distinct generated expression
+    ck.nontrivial = set(range(len(events) - len(failed) + nwide))  # every judged case is a distinct generated expression
     return ck.finish(rule="random expression trees (depth <= 6, every operator, literal spellings in all radixes, strings with every escape and "
                           "encoding function, blocks with locals, asserts, ill-typed combinations) observed as constants and as data, plus "
                           "random token sequences parsed by the specification; distinct = generated case index (texts are random, duplicates negligible)")
